@@ -3,6 +3,7 @@ CONSTANTS
   P = 5
   NEQ = 2
   Variants = 2
+  NShapes = 4
 INVARIANT Inv_PrimalUK Inv_DualUK Inv_DualSK Inv_Bayes Inv_ColCok Inv_Xvalid Inv_Shortcut
 CONSTRAINT Emit
 CHECK_DEADLOCK FALSE
